@@ -28,7 +28,9 @@ def make_opcode_variable_list() -> list[tuple[str, int, Callable[..., Any], Call
             try:
                 size = struct.unpack(struct_data, script[pc : pc + struct_size])[0]
             except Exception:
-                return 0, pc
+                # the length field itself runs off the end of the script: report a size that
+                # cannot be satisfied, so that this is seen as a truncated push (not an empty one)
+                return len(script) + 1, pc
             pc += struct_size
             return size, pc
 
